@@ -182,12 +182,6 @@ def ch_opt_errors(ctx) -> Channel:
            [["vcorrupt", "1,x"]], [["vcorrupt", "1,PT5S"]], [["vcorrupt", "2024-03-05T10:20:30Z"]],
            [["start", "2024-03-05T10:20:30+24:00"]], [["start", "2024-03-05T10:20:30"]],
            [["drm", "all-foo"]], [["drm", "playready-foo"]], [["merr", "503=10:20:30Z"]]]
-    lines = [f"c16calc {O.query_string(q).encode().hex() or '-'}" for q in qs]
-    try:
-        model = common.run_driver(lines)
-    except Exception as e:
-        ch.errors.append(f"driver: {e}")
-        model = ["driver-error"] * len(lines)
     client = app.client()
     # every drift value the check accepts, on every time method (the answer is computed from now - drift)
     qs += [[["drift", v]] for v in c16_http.INT_EDGE for _ in range(4)]
@@ -387,12 +381,108 @@ def ch_loops(ctx) -> Channel:
     return ch
 
 
+# ====================================================================== ntp_time
+
+def ch_ntp(ctx) -> Channel:
+    """/time/http-ntp under a spread of clocks x drift values vs the Lean field computation"""
+    import datetime
+    import struct
+    import appboot
+    import c16_http
+    ch = Channel("ntp_time", rule=(
+        "correspondence: GET /time/http-ntp?drift=<d> under controlled clocks (1970 ... 9999, both sides of "
+        "the NTP era boundary 2036-02-07T06:28:16Z, 2^31 / 2^32 Unix seconds) x drift values (0, small, "
+        "+-2^31, +-2^32, +-3*10^9, +-100 years) with the drift-adjusted clock not before 1900 (hypothesis of "
+        "ntp_fields_fit_partial): the 32-bit seconds field must equal the model's exactly, the fraction within "
+        "the float error of total_seconds() (4096 units); oracle: status 200 with 8 bytes or a 4xx, seconds = "
+        "floor(t) mod 2^32 computed here from the clock; non-trivial = the drift-adjusted clock lies in NTP era "
+        ">= 1 or a drift is given; distinct by (clock, drift)"))
+    app = c16_http.world()
+    rng = ctx.rng("ntp_time")
+    epoch1900 = datetime.datetime(1900, 1, 1, tzinfo=datetime.timezone.utc)
+    clocks = list(HttpFuzz.CLOCKS) + [c16_http.NOW, "2036-02-07T06:28:16.500000Z", "2036-02-07T06:28:17Z",
+                                      "2172-03-15T12:56:32Z", "2172-03-15T12:56:31.999999Z"]
+    drifts = [None, 0, 1, -1, 10, -10, 86400, -86400, 2 ** 31 - 1, -(2 ** 31), 2 ** 31, -(2 ** 31) - 1, 2 ** 32,
+              -(2 ** 32), 3000000000, -3000000000, 3162240000, -3162240000, 400000000, -400000000]
+    cases = [(c, d) for c in clocks for d in drifts]
+    for _ in range(ctx.scale(60, 3000)):
+        base = datetime.datetime(2000, 3, 17, tzinfo=datetime.timezone.utc) + datetime.timedelta(
+            seconds=rng.randrange(0, 250 * 366 * 86400), microseconds=rng.choice([0, 0, 1, 250000, 500000, 999999]))
+        cases.append((base.strftime("%Y-%m-%dT%H:%M:%S.%fZ"), rng.choice(drifts + [rng.randrange(-3162240000, 3162240001)])))
+    todo, lines = [], []
+    for now_s, drift in cases:
+        now = appboot._real_datetime.strptime(now_s, "%Y-%m-%dT%H:%M:%S.%fZ" if "." in now_s else "%Y-%m-%dT%H:%M:%SZ")
+        now = now.replace(tzinfo=datetime.timezone.utc)
+        try:
+            adj = now - datetime.timedelta(seconds=drift or 0)
+        except OverflowError:
+            adj = None
+        if adj is None:
+            us = None
+        else:
+            d = adj - epoch1900
+            us = (d.days * 86400 + d.seconds) * 1000000 + d.microseconds
+        if us is not None and us < 0:
+            continue                        # outside the hypothesis (clock before 1900)
+        todo.append((now_s, drift, us))
+        if us is not None:
+            lines.append(f"c16ntp {us}")
+    try:
+        model = iter(common.run_driver(lines))
+    except Exception as e:
+        ch.errors.append(f"driver: {e}")
+        model = iter(["driver-error"] * len(lines))
+    client = app.client()
+    with appboot.Clock(c16_http.NOW) as clock:
+        for now_s, drift, us in todo:
+            clock.set(now_s)
+            ch.evaluations += 1
+            q = [] if drift is None else [["drift", str(drift)]]
+            c16_http._LAST_EXC[:] = []
+            r = client.get(c16_http.build_url("/time/http-ntp", q))
+            status, data = r.status_code, r.data
+            r.close()
+            res = c16_http.Result(status, 0.0, c16_http._LAST_EXC[-1] if c16_http._LAST_EXC else None)
+            ch.count(f"status:{status}")
+            if us is not None and (us >= (2 ** 32) * 1000000 or drift):
+                ch.nontrivial.add((now_s, drift))
+            why = c16_http.violates(res, q)
+            if not why and status == 200 and us is not None:
+                if len(data) != 8:
+                    why = f"status 200 with {len(data)} bytes"
+                elif struct.unpack(">II", data)[0] != (us // 1000000) % (2 ** 32):
+                    why = f"NTP seconds {struct.unpack('>II', data)[0]}, expected {(us // 1000000) % (2 ** 32)}"
+            if why:
+                f = http_failure("ntp_time", "GET", "/time/http-ntp", q, "anon", None, res, why)
+                f["now"] = now_s
+                ch.oracle_failures.append(f)
+            if us is None:
+                continue
+            m = next(model)
+            if m == "driver-error":
+                continue
+            if status != 200:
+                if status == 400 and drift is not None and abs(drift) > 3162240000:
+                    continue                # refused by check_option_values (MAX_TIME_SPAN), see c16calc
+                if m != "StructError" or status < 500:
+                    ch.disagreements.append({"now": now_s, "drift": drift, "model": m, "impl": f"status{status}"})
+                continue
+            ms, mf = (int(x) for x in m.split()) if m != "StructError" else (None, None)
+            s_, f_ = struct.unpack(">II", data) if len(data) == 8 else (None, None)
+            if ms != s_ or f_ is None or abs(mf - f_) > 4096:
+                ch.disagreements.append({"now": now_s, "drift": drift, "model": m, "impl": [s_, f_]})
+            ch.sample({"now": now_s, "drift": drift, "seconds": s_, "fraction": f_}, limit=3)
+    return ch
+
+
 # ====================================================================== fuzz_http
 
 def http_failure(channel, method, path, query, who, headers, res, why) -> dict:
     import c16_http
+    import datetime as _dt
+    now = _dt.datetime.now(tz=_dt.timezone.utc).strftime("%Y-%m-%dT%H:%M:%S.%fZ")     # the controlled clock
     return {"kind": "http", "channel": channel, "method": method, "path": path, "query": query, "who": who,
-            "headers": headers, "now": c16_http.NOW, "status": res.status, "signature": c16_http.signature(res),
+            "headers": headers, "now": now, "status": res.status, "signature": c16_http.signature(res),
             "exception": list(res.exc) if res.exc else None, "why": why,
             "url": c16_http.build_url(path, query)}
 
@@ -508,7 +598,7 @@ class HttpFuzz:
         except H.Timeout:
             status, to = 0, True
         except Exception as e:
-            status, to = -1, False
+            status, to = H.CLIENT_ERROR, False
             H._LAST_EXC.append((type(e).__name__, "client", str(e)[:160]))
         finally:
             signal.setitimer(signal.ITIMER_REAL, 0)
@@ -611,6 +701,36 @@ class HttpFuzz:
                 extra = [["events", "ping,scte35"]] if "__" in name and name.split("__")[0] in ("ping", "scte35") else []
                 self.one("GET", rng.choice(targets), [[name, v]] + extra, "anon", None, endpoint="every-option")
 
+    CLOCKS = ["1970-01-01T00:00:00Z", "1970-01-02T00:00:01Z", "2000-02-29T23:59:59.999999Z", "2024-12-31T23:59:59Z",
+              "2025-01-01T00:00:00Z", "2036-02-07T06:28:15Z", "2036-02-07T06:28:16Z", "2038-01-19T03:14:08Z",
+              "2100-03-01T00:00:00Z", "2106-02-07T06:28:16Z", "9999-12-30T12:00:00Z"]
+
+    def clock_sweep(self, clock, n):
+        """the clock-dependent routes at boundary instants (NTP era, 2^31 / 2^32 Unix seconds, year and
+        month starts, the ends of the datetime range), anonymous client"""
+        rng = self.rng
+        targets = ["/time/xsd", "/time/iso", "/time/http-ntp", "/time/head", "/dash/live/bbb/hand_made.mpd",
+                   "/dash/live/bbb/manifest_n.mpd", "/dash/live/tears/manifest_e.mpd", "/dash/live/syn1/manifest_a.mpd",
+                   "/mps/live/c16mps/hand_made.mpd", "/dash/live/bbb/bbb_v7/init.m4v", "/dash/live/bbb/bbb_v7/1.m4v",
+                   "/dash/live/bbb/bbb_a1/time/0.m4a", "/patch/bbb/hand_made/1709634000",
+                   "/play/live/bbb/hand_made/index.html", "/dash/vod/bbb/hand_made.mpd"]
+        opts = [[], [], [["start", "epoch"]], [["start", "now"]], [["start", "today"]], [["start", "month"]],
+                [["drift", "10"]], [["drift", "-86400"]], [["drift", "3000000000"]], [["drift", "-3000000000"]],
+                [["mup", "4"]], [["depth", "30"]], [["timeline", "1"]], [["time", "direct"]], [["time", "ntp"]],
+                [["patch", "1"]], [["events", "ping"]], [["start", "2024-03-05T10:20:30Z"]],
+                [["merr", "503=10:20:30Z"], ["start", "today"]], [["verr", "503=10:20:30Z"]]]
+        saved = self.clients
+        for now in self.CLOCKS:
+            clock.set(now)
+            self.clients = {"anon": self.app.client()}
+            for t in targets:
+                self.one("GET", t, rng.choice(opts), "anon", None, endpoint="clock-sweep")
+            for _ in range(n):
+                q = self.H.gen_query(rng, self.names, self.pool, kinds=self.kinds)
+                self.one("GET", rng.choice(targets), q, "anon", None, endpoint="clock-sweep")
+        clock.set(self.H.NOW)
+        self.clients = saved
+
     def mutating(self, n):
         """POST / PUT / DELETE with junk bodies and no valid CSRF token"""
         rng = self.rng
@@ -637,16 +757,20 @@ def ch_fuzz_http(ctx) -> Channel:
         "anonymous, user, media, admin; GET and HEAD) x query strings assembled from every registered option "
         "name with accepted-but-odd, boundary, type-confused and hostile values x streams with missing pieces "
         "(no encrypted files, no audio, no timing reference, unindexed media, no media, multi-period streams "
-        "without periods / without timing reference / of zero duration) x Range/Host/Cookie headers; plus "
+        "without periods / without timing reference / of zero duration) x Range/Host/Cookie headers; the "
+        "clock-dependent routes at boundary instants of the controlled clock (1970, NTP era end 2036, 2^31 and "
+        "2^32 Unix seconds, year 9999); plus "
         "POST/PUT/DELETE rules with junk bodies and no valid CSRF token; oracle: status < 500 or a code the "
         "request itself asks to be injected, answer within 20 s; failures are shrunk to a minimal parameter set "
         "and reported once per (route, exception signature); non-trivial = a request with a query string or "
         "answered 200/206/4xx other than 401/404; distinct by (method, url, role, headers)"))
     rng = ctx.rng("fuzz_http")
     fz = HttpFuzz(ctx, ch, rng)
-    with appboot.Clock(c16_http.NOW):
+    with appboot.Clock(c16_http.NOW) as clock:
         fz.login()
         t0 = time.perf_counter()
+        fz.clock_sweep(clock, ctx.scale(4, 150))
+        fz.login()
         fz.regressions()
         fz.sweep()
         fz.every_option()
@@ -737,6 +861,7 @@ def channels(ctx):
     yield ch_opt_errors(ctx)
     yield ch_inject(ctx)
     yield ch_loops(ctx)
+    yield ch_ntp(ctx)
     yield ch_fuzz_mp4(ctx)
     yield ch_fuzz_http(ctx)          # last: its POST/PUT/DELETE part is the only one that may change state
 
@@ -758,7 +883,7 @@ def _replay_http(f) -> dict:
                 r = c.open(url, method=f["method"], headers=f.get("headers") or {}, **kw)
                 res = c16_http.Result(r.status_code, 0.0, c16_http._LAST_EXC[-1] if c16_http._LAST_EXC else None)
             except Exception as e:
-                res = c16_http.Result(-1, 0.0, (type(e).__name__, "client", str(e)[:160]))
+                res = c16_http.Result(c16_http.CLIENT_ERROR, 0.0, (type(e).__name__, "client", str(e)[:160]))
         else:
             res = c16_http.run(c, f["method"], url, f.get("headers"))
         why = c16_http.violates(res, f.get("query") or [])
@@ -861,7 +986,7 @@ def search(ctx, disagreements):
     c2 = types.SimpleNamespace(tier="thorough", thorough=True, seed=ctx.seed + 7919,
                                rng=lambda name: common.rng_for(ctx.seed + 7919, name),
                                scale=lambda q, t: max(q, t // 6))
-    for fn in (ch_opt_errors, ch_inject, ch_loops, ch_fuzz_http, ch_fuzz_mp4):
+    for fn in (ch_opt_errors, ch_inject, ch_loops, ch_ntp, ch_fuzz_http, ch_fuzz_mp4):
         ch = fn(c2)
         if ch.oracle_failures:
             return ch.oracle_failures[0]
